@@ -17,6 +17,7 @@
 #include <nitro/log/sink/stderr_mt.hpp>
 #include <nitro/log/sink/stdout_mt.hpp>
 
+#include <cstring>
 #include <iostream>
 #include <set>
 #include <streambuf>
@@ -266,6 +267,81 @@ static Exec run_schedule(Config& c, const std::vector<unsigned char>& choices)
     return e;
 }
 
+// the same, in a freshly forked process (the parent has never logged): result comes back through a pipe
+static Exec run_schedule_fresh(Config& c, const std::vector<unsigned char>& choices)
+{
+    int fd[2];
+    Exec e;
+    if (pipe(fd) != 0)
+    {
+        e.clause = "harness";
+        e.verdict = "pipe failed";
+        return e;
+    }
+    fflush(stdout);
+    fflush(stderr);
+    pid_t p = fork();
+    if (p == 0)
+    {
+        close(fd[0]);
+        Exec x = run_schedule(c, choices);
+        auto put = [&](const void* d, size_t n) {
+            const char* b = static_cast<const char*>(d);
+            while (n)
+            {
+                ssize_t w = write(fd[1], b, n);
+                if (w <= 0)
+                    _exit(3);
+                b += w;
+                n -= w;
+            }
+        };
+        auto puts = [&](const std::string& str) {
+            size_t n = str.size();
+            put(&n, sizeof n);
+            put(str.data(), n);
+        };
+        put(&x.res, sizeof x.res);
+        put(&x.concurrent, sizeof x.concurrent);
+        puts(x.out);
+        puts(x.clause);
+        puts(x.verdict);
+        _exit(0);
+    }
+    close(fd[1]);
+    std::string all;
+    char tmp[8192];
+    ssize_t n;
+    while ((n = read(fd[0], tmp, sizeof tmp)) > 0)
+        all.append(tmp, n);
+    close(fd[0]);
+    int st = 0;
+    waitpid(p, &st, 0);
+    size_t off = 0;
+    auto get = [&](void* d, size_t k) {
+        if (off + k > all.size())
+            return false;
+        memcpy(d, all.data() + off, k);
+        off += k;
+        return true;
+    };
+    auto gets = [&](std::string& str) {
+        size_t k = 0;
+        if (!get(&k, sizeof k) || off + k > all.size())
+            return false;
+        str.assign(all.data() + off, k);
+        off += k;
+        return true;
+    };
+    bool ok = get(&e.res, sizeof e.res) && get(&e.concurrent, sizeof e.concurrent) && gets(e.out) && gets(e.clause) && gets(e.verdict);
+    if (!ok || !WIFEXITED(st) || WEXITSTATUS(st) != 0)
+    {
+        e.clause = "crash";
+        e.verdict = "the process running this schedule died (" + std::string(WIFSIGNALED(st) ? strsignal(WTERMSIG(st)) : "exit status " + std::to_string(WEXITSTATUS(st))) + ")";
+    }
+    return e;
+}
+
 static std::string trace_str(const sched_result& r)
 {
     std::string s;
@@ -293,18 +369,24 @@ struct Explore
     double deadline;
     bool cut = false;
     int ci;
+    bool fresh = false; // every execution in a process of its own (first use of the sink)
+
+    Exec run(const std::vector<unsigned char>& choices)
+    {
+        return fresh ? run_schedule_fresh(*cfg, choices) : run_schedule(*cfg, choices);
+    }
 
     void report(const Exec& e, const std::vector<unsigned char>& choices)
     {
-        std::string w = mc::J().n("config", ci).s("config_name", cfg->name).raw("choices", choices_json(choices)).str();
-        if (e.res.deadlock)
+        std::string w = mc::J().n("config", ci).s("config_name", cfg->name).raw("choices", choices_json(choices)).b("first_use", fresh).str();
+        if (e.res.deadlock && !fresh)
         {
             // the threads of a deadlocked execution stay parked for ever, nothing more can be run in this process
             rep->violation(e.clause, "C09:" + e.clause + ":" + cfg->name, w, e.verdict + " ; thread chosen at each scheduling point: " + trace_str(e.res), idx);
             return;
         }
         // replay alone before reporting: the same schedule must fail the same way
-        auto again = run_schedule(*cfg, choices);
+        auto again = run(choices);
         if (again.clause != e.clause || again.out != e.out)
         {
             rep->violation("harness-nondeterministic-replay", "C09:harness:nondeterministic-replay", w,
@@ -318,7 +400,7 @@ struct Explore
     {
         if (cut)
             return;
-        auto e = run_schedule(*cfg, prefix);
+        auto e = run(prefix);
         schedules++;
         points += e.res.n_points;
         max_points = std::max(max_points, e.res.n_points);
@@ -339,7 +421,7 @@ struct Explore
             report(e, taken);
             if (rep->total_violations > 20)
                 cut = true;
-            if (e.res.deadlock)
+            if (e.res.deadlock && !fresh)
                 cut = true; // threads are parked for ever; this process is given up by the caller
             return;
         }
@@ -439,10 +521,9 @@ int main(int argc, char** argv)
     auto cs = configs();
     std::cout.rdbuf(&buf());
     std::cerr.rdbuf(&buf());
-    // construct the function-local statics (logger instances, sink mutexes) before any scheduled thread runs
-    log_one<LOut>(2, "init;");
-    log_one<LErr>(2, "init;");
-    buf().reset();
+    // Nothing is logged before the scheduled threads run: the first use of a sink (construction of its function-local
+    // statics, anything it decides "on first use") happens inside the explored executions.  In the "first use" jobs every
+    // single execution runs in a process of its own, so that every explored schedule is a first use.
     if (!a.replay.empty())
     {
         auto doc = js::load(a.replay);
@@ -456,7 +537,7 @@ int main(int argc, char** argv)
         std::vector<unsigned char> ch;
         for (auto& v : w.at("choices").arr)
             ch.push_back(static_cast<unsigned char>(v.num));
-        auto e = run_schedule(c, ch);
+        auto e = w.flag("first_use") ? run_schedule_fresh(c, ch) : run_schedule(c, ch);
         printf("replay C09 %s: %zu choices, %d scheduling points\n  thread at each point: %s\n  output: '%s'\n", c.name.c_str(), ch.size(), e.res.n_points,
                trace_str(e.res).c_str(), e.out.c_str());
         if (e.clause.empty())
@@ -472,6 +553,7 @@ int main(int argc, char** argv)
     struct Job
     {
         int cfg, bound;
+        bool fresh = false;
     };
     std::vector<Job> jobs;
     for (size_t i = 0; i < cs.size(); i++)
@@ -484,6 +566,10 @@ int main(int argc, char** argv)
             k = a.thorough() ? 2 : 1;
         jobs.push_back({ static_cast<int>(i), k });
     }
+    // first use of the sink: every execution in a fresh process
+    for (size_t i = 0; i < cs.size(); i++)
+        if (cs[i].name.find("2x2") != std::string::npos || cs[i].name.find("3x1") != std::string::npos)
+            jobs.push_back({ static_cast<int>(i), a.thorough() ? 2 : 1, true });
     mc::Sharded sh;
     sh.id = "C09";
     sh.nworkers = std::min<int>(a.jobs, static_cast<int>(jobs.size()));
@@ -495,11 +581,13 @@ int main(int argc, char** argv)
         for (auto& j : jobs)
         {
             long idx = ctx.next;
-            ctx.each([&] { return mc::Desc{ mc::J().n("config", j.cfg).s("config_name", cs[j.cfg].name).n("bound", j.bound).str(), cs[j.cfg].name }; },
+            ctx.each([&] { return mc::Desc{ mc::J().n("config", j.cfg).s("config_name", cs[j.cfg].name).n("bound", j.bound).b("first_use", j.fresh).str(), cs[j.cfg].name }; },
                      [&](mc::Report& rep) {
                          auto& c = cs[j.cfg];
+                         std::string label = c.name + (j.fresh ? " (first use, fresh process per execution)" : "");
                          // determinism: the default schedule twice, and one schedule with two forced switches twice
-                         auto d1 = run_schedule(c, {}), d2 = run_schedule(c, {});
+                         auto runner = [&](const std::vector<unsigned char>& ch) { return j.fresh ? run_schedule_fresh(c, ch) : run_schedule(c, ch); };
+                         auto d1 = runner({}), d2 = runner({});
                          if (d1.out != d2.out || trace_str(d1.res) != trace_str(d2.res))
                          {
                              rep.violation("harness-nondeterministic", "C09:harness:nondeterministic", "null", "default schedule differs between two runs: '" + d1.out + "' vs '" + d2.out + "'", idx);
@@ -511,7 +599,7 @@ int main(int argc, char** argv)
                              forced[2] = 1;
                              forced.back() = 1;
                          }
-                         auto f1 = run_schedule(c, forced), f2 = run_schedule(c, forced);
+                         auto f1 = runner(forced), f2 = runner(forced);
                          if (!f1.res.diverged && (f1.out != f2.out || trace_str(f1.res) != trace_str(f2.res)))
                          {
                              rep.violation("harness-nondeterministic", "C09:harness:nondeterministic", "null", "a forced schedule differs between two runs", idx);
@@ -523,6 +611,7 @@ int main(int argc, char** argv)
                          {
                              Explore ex;
                              ex.cfg = &c;
+                             ex.fresh = j.fresh;
                              ex.ci = j.cfg;
                              ex.bound = k;
                              ex.rep = &rep;
@@ -531,8 +620,8 @@ int main(int argc, char** argv)
                              ex.explore({});
                              total += ex.schedules;
                              rep.set_max("max_points_per_execution", ex.max_points);
-                             rep.count("schedules k=" + std::string(k == 99 ? "unbounded" : std::to_string(k)) + " [" + c.name + "]", ex.schedules);
-                             rep.set_max("max_distinct_outputs [" + c.name + "]", static_cast<long long>(ex.outputs.size()));
+                             rep.count("schedules k=" + std::string(k == 99 ? "unbounded" : std::to_string(k)) + " [" + label + "]", ex.schedules);
+                             rep.set_max("max_distinct_outputs [" + label + "]", static_cast<long long>(ex.outputs.size()));
                              if (ex.cut)
                              {
                                  if (rep.total_violations == 0)
@@ -540,13 +629,13 @@ int main(int argc, char** argv)
                                  break;
                              }
                              completed = k;
-                             rep.states.insert(mc::hash(c.name + "k" + std::to_string(k)));
+                             rep.states.insert(mc::hash(label + "k" + std::to_string(k)));
                              if (ex.outputs.size() < 2)
                                  rep.violation("harness-vacuous", "C09:harness:vacuous", "null", c.name + ": only one distinct output at bound " + std::to_string(k) + " - nothing contended", idx);
                              if (k == 99)
                                  break;
                          }
-                         rep.set_max("max_completed_bound [" + c.name + "]", completed);
+                         rep.set_max("max_completed_bound [" + label + "]", completed);
                          rep.nontrivial.insert(mc::hash(c.name));
                          rep.nontrivial.insert(mc::hash(c.name + "#"));
                          rep.sample(mc::J().s("config", c.name).n("completed_preemption_bound", completed).n("schedules", total).s("default_schedule_threads", trace_str(d1.res)).s("default_output", d1.out).str());
